@@ -195,6 +195,10 @@ class ParsingFrontend(Serialize):
             token_stream = stunted_ip.lexer_thread.lex(stunted_ip.parser_state)
             try:
                 for token in token_stream:
+                    if not matched_tokens and token.start_pos is not None and token.start_pos != match_start:
+                        # The lexer skipped ignored text first, so nothing starts at match_start itself.
+                        # The positions inside the ignored text (and this token's own) are tried in turn.
+                        break
                     stunted_ip.feed_token(token)
                     matched_tokens.append(token)
                     # Test if we reached a possible completed parse
